@@ -204,6 +204,34 @@ impl RunResult {
     }
 }
 
+/// property that owns "a call panicked / hung" for a system
+pub fn panic_property(cfg: &Cfg) -> &'static str {
+    if cfg.system.starts_with("ring.") {
+        "C19"
+    } else if cfg.system.starts_with("ds.") {
+        "C20"
+    } else {
+        "C01"
+    }
+}
+
+/// `apply` with a safety net: a panic that escapes the per-call wrappers of a system (raised by a
+/// read-only hook walking a corrupted structure, by a debug assertion of the crate reached through
+/// an accessor, or by the harness itself) is reported as a violation and marks the state corrupt.
+pub fn safe_apply<S: System>(cfg: &Cfg, s: &mut S, op: S::Op, out: &mut StepOut) {
+    if let Err(e) = std::panic::catch_unwind(std::panic::AssertUnwindSafe(|| s.apply(op, out))) {
+        let msg = e.downcast_ref::<&str>().map(|s| s.to_string()).or_else(|| e.downcast_ref::<String>().cloned()).unwrap_or_default();
+        out.v(panic_property(cfg), "panic", format!("panic while inspecting the structure after the operation (debug assertion of the crate / corrupted structure): {}", msg));
+        out.corrupt = true;
+    }
+    if out.corrupt {
+        // after a panic / structural corruption the pure state predicates (wake-up flags,
+        // is_terminated vs. harness bookkeeping, allocation counts) of this step are not
+        // meaningful: the harness bookkeeping itself was interrupted
+        out.viol.retain(|v| !v.pure);
+    }
+}
+
 pub fn build<S: System>(cfg: &Cfg, h: &[S::Op]) -> S {
     harness::reset_thread_state();
     let mut s = S::new(cfg);
@@ -211,7 +239,7 @@ pub fn build<S: System>(cfg: &Cfg, h: &[S::Op]) -> S {
     for &op in h {
         out.viol.clear();
         out.obs.clear();
-        s.apply(op, &mut out);
+        safe_apply(cfg, &mut s, op, &mut out);
     }
     s
 }
@@ -224,7 +252,7 @@ pub fn replay_log<S: System>(cfg: &Cfg, h: &[S::Op]) -> Vec<String> {
     let mut log = vec![];
     for &op in h {
         let mut out = StepOut::default();
-        s.apply(op, &mut out);
+        safe_apply(cfg, &mut s, op, &mut out);
         let vs: Vec<String> = out.viol.iter().map(|v| format!("{}:{}", v.prop, v.clause)).collect();
         log.push(format!("{:?} -> {} {}{}", op, out.obs, if out.corrupt { "CORRUPT " } else { "" }, vs.join(" | ")));
         if out.corrupt {
@@ -325,13 +353,7 @@ pub fn explore<S: System>(cfg: &Cfg, opts: &Opts) -> RunResult {
                             note_start(wid, i, h, Some(&op), cfg);
                             let mut s = build::<S>(cfg, h);
                             let mut out = StepOut::default();
-                            if let Err(e) = std::panic::catch_unwind(std::panic::AssertUnwindSafe(|| s.apply(op, &mut out))) {
-                                // a panic that escaped the per-call wrapper: raised by a read-only hook
-                                // walking a corrupted structure (debug assertion) or by the harness itself
-                                let msg = e.downcast_ref::<&str>().map(|s| s.to_string()).or_else(|| e.downcast_ref::<String>().cloned()).unwrap_or_default();
-                                out.v("C01", "panic", format!("panic while inspecting the primitive after the operation (corrupted structure?): {}", msg));
-                                out.corrupt = true;
-                            }
+                            safe_apply(cfg, &mut s, op, &mut out);
                             w.transitions += 1;
                             let mut hh = h.clone();
                             hh.push(op);
@@ -470,7 +492,7 @@ pub fn replay_named<S: System>(cfg: &Cfg, names: &[String]) -> Result<Vec<String
             .copied()
             .ok_or_else(|| format!("step {}: operation {} is not enabled (menu: {:?})", i, n, ops))?;
         let mut out = StepOut::default();
-        s.apply(op, &mut out);
+        safe_apply(cfg, &mut s, op, &mut out);
         let vs: Vec<String> = out.viol.iter().map(|v| format!("VIOLATION {}:{}: {}", v.prop, v.clause, v.msg)).collect();
         log.push(format!("{:?} -> {} {}{}", op, out.obs, if out.corrupt { "CORRUPT " } else { "" }, vs.join(" | ")));
         if out.corrupt {
